@@ -45,11 +45,25 @@ Pairs ==   {Bin(op, c, B) : op \in AllBinOps, c \in Full2} \cup {Bin(op, B, c) :
       \cup {Bin("+", c, IntL("1")) : c \in Full2} \cup {Bin("-", c, IntL("1")) : c \in Full2}
       \cup {Un("not", IsA(c, B)) : c \in Full2} \cup {Bin("or", c, B) : c \in Full2}
 
-Cases == CASE Family = "depth3" -> D3 [] Family = "pairs" -> Pairs
+\* end-to-end family: TYPED trees (Int- and Bool-valued) that exist as Mamba source; operators in the Python vocabulary
+\* (the driver spells them in Mamba: % -> mod, ** -> ^, == -> =, ternary -> if/then/else) with every operand parenthesised
+T == Id("t")
+IntOps == {"+", "-", "*", "//", "%", "**"}
+CmpOpsE == {"<", "<=", ">", ">=", "=="}
+I1 == {A, IntL("1")}
+B1 == {T}
+I2 == I1 \cup {Bin(op, l, r) : op \in IntOps, l \in I1, r \in I1} \cup {Un("-", e) : e \in I1} \cup {Tern(T, l, r) : l \in I1, r \in I1}
+B2 == B1 \cup {Bin(op, l, r) : op \in CmpOpsE, l \in I1, r \in I1} \cup {Bin(op, T, T) : op \in {"and", "or"}} \cup {Un("not", T)}
+I3 == I2 \cup {Bin(op, l, r) : op \in {"+", "-", "*", "**", "//"}, l \in I2, r \in I2} \cup {Un("-", e) : e \in I2}
+         \cup {Tern(c, l, r) : c \in B2, l \in I1, r \in I1} \cup {Tern(T, l, r) : l \in I2, r \in I1} \cup {Tern(T, l, r) : l \in I1, r \in I2}
+B3 == B2 \cup {Bin(op, l, r) : op \in {"<", "=="}, l \in I2, r \in I2} \cup {Bin(op, l, r) : op \in {"and", "or"}, l \in B2, r \in B2} \cup {Un("not", e) : e \in B2}
+E2E == {[ty |-> "Int", e |-> e] : e \in I3} \cup {[ty |-> "Bool", e |-> e] : e \in B3}
+
+Cases == CASE Family = "depth3" -> {[ty |-> "", e |-> e] : e \in D3} [] Family = "pairs" -> {[ty |-> "", e |-> e] : e \in Pairs} [] Family = "e2e" -> E2E
 
 VARIABLE t
 Init == t \in Cases
 Next == UNCHANGED t
-RoundTripInv == RoundTrip(t)
-Emit == PrintT("@@" \o ToJson([fam |-> Family, tree |-> t, py |-> PyOf(t), toks |-> Pr(t)]))
+RoundTripInv == RoundTrip(t.e)
+Emit == PrintT("@@" \o ToJson([fam |-> Family, tree |-> t.e, py |-> PyOf(t.e), toks |-> Pr(t.e), ty |-> t.ty]))
 =====================================================================================
